@@ -168,6 +168,7 @@ func suiteC05(c *Ctx) []Suite {
 				toks := msgTokens(c.R, m, true)
 				lay := plainLayout(c.R)
 				lay.VaryCase = c.R.Intn(2) == 0
+				lay.Comments = c.R.Intn(3) == 0 // comments (with any bytes, CR included) never add or change a value
 				text, _ := lay.render(toks)
 				cs := Case{Op: smlOp(text), Decisive: true, Nontrivial: true, Tags: itemTags("", item)}.fields("n str vars err")
 				res := parseSML(text)
@@ -519,6 +520,12 @@ func suiteC08(c *Ctx) []Suite {
 							eolAfter = k + 1
 						}
 					}
+				}
+				if i%7 == 3 && len(toks) > 2 && toks[len(toks)-1].Text == "." {
+					// an invalid message whose stray token stands between the closing '>' and the
+					// terminator: whatever separates them, the item text has not ended
+					stray := []STok{{"t", 0, false}, {"T", 0, true}, {"...", 0, false}, {`"a b"`, 0, false}, {"[1]", 0, false}, {"x9", 0, false}, {"5", 0, false}, {"f", 0, false}, {"W", 0, false}, {"S1F1", 0, false}}[c.R.Intn(10)]
+					toks = append(append(append([]STok{}, toks[:len(toks)-1]...), stray), toks[len(toks)-1])
 				}
 				if i%5 == 0 { // several messages in one text
 					toks = append(toks, msgTokens(c.R, genSMLMsg(c.R, smlTemplate(c.R, 0.2, false)), false)...)
@@ -952,6 +959,43 @@ func suiteC15(c *Ctx) []Suite {
 						wmax := whi
 						out = append(out, Case{Op: fmt.Sprintf("fillitem AV $76 %d %d | %s", wlo, wmax, strings.Join(fillOps, " | ")), Decisive: true, Nontrivial: true, Tags: []string{"avfill"}}.fields(itemKeys))
 					}
+				}
+			}
+			// bounds the wrong way round: no length lies in [lo..hi], the declaration is an error
+			for lo := 1; lo <= max; lo++ {
+				for hi := 0; hi < lo; hi++ {
+					text := fmt.Sprintf("S1F1 H->E\n<L\n  <A[%d..%d] v>\n>\n.", lo, hi)
+					res := parseSML(text)
+					oracle := ""
+					if res.panicked {
+						oracle = "panic"
+					} else if len(res.errs) == 0 {
+						oracle = fmt.Sprintf("ASCII variable declared [%d..%d] (no length fits) accepted", lo, hi)
+						if len(res.msgs) == 1 {
+							oracle += " as " + strings.ReplaceAll(res.msgs[0].String(), "\n", " ")
+						}
+					}
+					out = append(out, Case{Op: smlOp(text), Decisive: true, Oracle: oracle, Nontrivial: true, Tags: []string{"av-reversed"}}.fields("n err warn str"))
+				}
+			}
+			// bounds beyond every item size: kept, enforced and printed back as they were given
+			for _, b := range []string{"16777215", "16777216", "20000000", "4294967296", "9223372036854775807"} {
+				for _, form := range []string{"[%s]", "[2..%s]", "[..%s]", "[%s..]"} {
+					decl := strings.ReplaceAll(form, "%s", b)
+					text := fmt.Sprintf("S1F1 H->E\n<L\n  <A%s v>\n>\n.", decl)
+					res := parseSML(text)
+					oracle := ""
+					if res.panicked {
+						oracle = "panic"
+					} else if len(res.errs) == 0 && len(res.msgs) == 1 {
+						printed := res.msgs[0].String()
+						if !strings.Contains(printed, b) {
+							oracle = "declared bound " + b + " is not printed back: " + strings.ReplaceAll(printed, "\n", " ")
+						} else if re := parseSML(printed); re.panicked || len(re.msgs) != 1 || re.msgs[0].String() != printed {
+							oracle = "printed form with the huge bound does not parse back to itself"
+						}
+					}
+					out = append(out, Case{Op: smlOp(text), Decisive: true, Oracle: oracle, Nontrivial: true, Tags: []string{"av-huge-bound"}}.fields("n err warn str"))
 				}
 			}
 			return out
